@@ -95,8 +95,13 @@ class BMPWriter:
 
     def write_line(self, y: int, data: bytes) -> None:
         self.fp.seek(self.pos1 - (y + 1) * self.linesize)
-        # every line of a BMP is padded to a multiple of four bytes
-        self.fp.write(data.ljust(self.linesize, b"\0"))
+        self.fp.write(data[: self.linesize])
+        if len(data) < self.linesize:
+            # Every line of a BMP is padded to a multiple of four bytes, and
+            # a line may be short of data.  Only the last byte of the padding
+            # is written; the bytes skipped read as zeros.
+            self.fp.seek(self.pos1 - y * self.linesize - 1)
+            self.fp.write(b"\0")
 
 
 class ImageWriter:
